@@ -51,3 +51,101 @@ pub unsafe extern "C" fn read(fd: libc::c_int, buf: *mut libc::c_void, count: li
   }
   libc::syscall(libc::SYS_read, fd, buf, count) as libc::ssize_t
 }
+
+// ------------------------------------------------------------------------------------------
+// System-call seam for the wait calls: epoll_wait(2) / epoll_pwait(2) / poll(2) / ppoll(2), and an
+// observer on epoll_ctl(2).
+//
+// The shipped RealDriver::poll waits in mio's `Poll::poll`, i.e. in epoll_wait. With the symbols
+// defined here a run can let the loop call the real `poll` with the loop's own time-out while the
+// simulated kernel decides what the system call answers and how much simulated time it took:
+// nothing really waits. A thread that has not armed a handler gets the plain system call.
+// poll/ppoll are covered as well so that a driver rewritten on top of poll(2) — a legitimate
+// refactoring — is simulated the same way instead of blocking the harness for real.
+// epoll_ctl is passed through and only observed: the simulated kernel learns which user data
+// (mio token) was registered for which descriptor, so it can fabricate a readiness report for a
+// descriptor the way the kernel would.
+
+pub enum WaitCall {
+  Epoll { epfd: libc::c_int, events: *mut libc::epoll_event, maxevents: libc::c_int },
+  Poll { fds: *mut libc::pollfd, nfds: libc::nfds_t },
+}
+impl WaitCall {
+  /// the real system call with a zero time-out: what is ready right now (n > 0), nothing (0), or -1
+  pub unsafe fn probe(&self) -> libc::c_int {
+    match self {
+      WaitCall::Epoll { epfd, events, maxevents } => libc::syscall(libc::SYS_epoll_wait, *epfd, *events, *maxevents, 0) as libc::c_int,
+      WaitCall::Poll { fds, nfds } => libc::syscall(libc::SYS_poll, *fds, *nfds, 0) as libc::c_int,
+    }
+  }
+}
+pub type WaitHandler = unsafe fn(ctx: *mut (), call: &WaitCall, timeout_ms: libc::c_int) -> libc::c_int;
+
+thread_local! {
+  static WAIT_HANDLER: Cell<Option<(*mut (), WaitHandler)>> = const { Cell::new(None) };
+  /// (epfd, fd, registered events mask, registered user data)
+  static EPOLL_REG: Cell<[(i32, i32, u32, u64); 8]> = const { Cell::new([(-1, -1, 0, 0); 8]) };
+}
+
+pub fn arm_wait(ctx: *mut (), h: WaitHandler) { let _ = WAIT_HANDLER.try_with(|c| c.set(Some((ctx, h)))); }
+pub fn disarm_wait() { let _ = WAIT_HANDLER.try_with(|c| c.set(None)); }
+fn armed() -> Option<(*mut (), WaitHandler)> { WAIT_HANDLER.try_with(|c| c.get()).ok().flatten() }
+/// what this thread registered for `fd` (in any epoll instance): (events mask, user data)
+pub fn epoll_registration(fd: i32) -> Option<(u32, u64)> {
+  EPOLL_REG.try_with(|c| c.get().iter().find(|e| e.1 == fd).map(|e| (e.2, e.3))).ok().flatten()
+}
+pub fn forget_epoll_registrations() { let _ = EPOLL_REG.try_with(|c| c.set([(-1, -1, 0, 0); 8])); }
+pub unsafe fn set_errno(e: i32) { *libc::__errno_location() = e; }
+
+#[no_mangle]
+pub unsafe extern "C" fn epoll_wait(epfd: libc::c_int, events: *mut libc::epoll_event, maxevents: libc::c_int, timeout_ms: libc::c_int) -> libc::c_int {
+  if let Some((ctx, h)) = armed() { return h(ctx, &WaitCall::Epoll { epfd, events, maxevents }, timeout_ms); }
+  libc::syscall(libc::SYS_epoll_wait, epfd, events, maxevents, timeout_ms) as libc::c_int
+}
+
+#[no_mangle]
+pub unsafe extern "C" fn epoll_pwait(epfd: libc::c_int, events: *mut libc::epoll_event, maxevents: libc::c_int, timeout_ms: libc::c_int, sigmask: *const libc::sigset_t) -> libc::c_int {
+  if let Some((ctx, h)) = armed() { return h(ctx, &WaitCall::Epoll { epfd, events, maxevents }, timeout_ms); }
+  libc::syscall(libc::SYS_epoll_pwait, epfd, events, maxevents, timeout_ms, sigmask, 8usize) as libc::c_int
+}
+
+#[no_mangle]
+pub unsafe extern "C" fn poll(fds: *mut libc::pollfd, nfds: libc::nfds_t, timeout_ms: libc::c_int) -> libc::c_int {
+  if let Some((ctx, h)) = armed() { return h(ctx, &WaitCall::Poll { fds, nfds }, timeout_ms); }
+  libc::syscall(libc::SYS_poll, fds, nfds, timeout_ms) as libc::c_int
+}
+
+#[no_mangle]
+pub unsafe extern "C" fn ppoll(fds: *mut libc::pollfd, nfds: libc::nfds_t, timeout: *const libc::timespec, sigmask: *const libc::sigset_t) -> libc::c_int {
+  if let Some((ctx, h)) = armed() {
+    let ms: libc::c_int = if timeout.is_null() { -1 } else {
+      let t = &*timeout;
+      let ms = (t.tv_sec as i128) * 1000 + ((t.tv_nsec as i128) + 999_999) / 1_000_000;
+      ms.clamp(0, libc::c_int::MAX as i128) as libc::c_int
+    };
+    return h(ctx, &WaitCall::Poll { fds, nfds }, ms);
+  }
+  libc::syscall(libc::SYS_ppoll, fds, nfds, timeout, sigmask, 8usize) as libc::c_int
+}
+
+#[no_mangle]
+pub unsafe extern "C" fn epoll_ctl(epfd: libc::c_int, op: libc::c_int, fd: libc::c_int, event: *mut libc::epoll_event) -> libc::c_int {
+  let r = libc::syscall(libc::SYS_epoll_ctl, epfd, op, fd, event) as libc::c_int;
+  if r == 0 {
+    let _ = EPOLL_REG.try_with(|c| {
+      let mut a = c.get();
+      match op {
+        libc::EPOLL_CTL_ADD | libc::EPOLL_CTL_MOD if !event.is_null() => {
+          let ev = std::ptr::read_unaligned(event);
+          let (mask, data) = (ev.events, ev.u64);
+          let slot = a.iter().position(|e| e.0 == epfd && e.1 == fd).or_else(|| a.iter().position(|e| e.1 < 0));
+          if let Some(i) = slot { a[i] = (epfd, fd, mask, data); }
+        }
+        libc::EPOLL_CTL_DEL => { for e in a.iter_mut() { if e.0 == epfd && e.1 == fd { *e = (-1, -1, 0, 0); } } }
+        _ => {}
+      }
+      c.set(a);
+    });
+  }
+  r
+}
